@@ -66,7 +66,7 @@ theorem refInsert_pairs (L : List (Entry ι V)) (p : List Char) (id : ι) (v : V
         intro hh; apply h; simp only [toPair, Prod.mk.injEq] at hh; exact hh
       simp only [h, if_false, List.map_cons, ih, this]
 
-theorem refRemove_pairs (L : List (Entry String V)) (id : String) :
+theorem refRemove_pairs (L : List (Entry String Route)) (id : String) :
     (refRemove L id).map toPair = (entryRemove id (L.map toPair)).1 ∧
     refRemoved L id = (entryRemove id (L.map toPair)).2 := by
   induction L with
@@ -78,17 +78,21 @@ theorem refRemove_pairs (L : List (Entry String V)) (id : String) :
       simp [h, this, toPair]
     · have : ¬ (toPair e).1.2 = id := h
       simp only [h, if_false, List.map_cons, this, ih.1, ih.2]
-      exact ⟨rfl, rfl⟩
+      trivial
+
+theorem refRetain_keepIf (L : List (Entry ι V)) (g : ι → V → Bool) :
+    refRetain L (keepIf g) = L.filter (fun e => g e.id e.val) := by
+  unfold refRetain
+  induction L with
+  | nil => rfl
+  | cons e L ih =>
+    rw [List.filterMap_cons, List.filter_cons, ih]
+    cases hg : g e.id e.val <;> simp [keepIf, hg]
 
 theorem refRetain_keepIf_pairs (L : List (Entry ι V)) (g : ι → V → Bool) :
     (refRetain L (keepIf g)).map toPair = (L.map toPair).filter (fun e => g e.1.2 e.2) := by
-  induction L with
-  | nil => simp [refRetain]
-  | cons e L ih =>
-    simp only [refRetain, List.filterMap_cons, List.map_cons, List.filter_cons] at ih ⊢
-    cases hg : g e.id e.val
-    · simp [keepIf, hg, toPair, ih]
-    · simp [keepIf, hg, toPair, ih]
+  rw [refRetain_keepIf, List.filter_map]
+  rfl
 
 end
 
